@@ -323,7 +323,7 @@ def rule_who_mutates(ctx, res):
     # &mut Node obtained from find_node_mut flows only into local_request / remote_request
     fsites = ctx.calls_to('table::RoutingTable::find_node_mut')
     res.sites += len(fsites)
-    res.check(len(fsites) >= 9, 'WHO', 'table::RoutingTable::find_node_mut', 'call sites found (floor 9)', detail=str(len(fsites)))
+    res.check(len(fsites) >= 1, 'WHO', 'table::RoutingTable::find_node_mut', 'call sites found (non-vacuity)', detail=str(len(fsites)))
     users = set()
     for body in {x.body.path: x.body for x in fsites}.values():
         res.touch(body)
